@@ -38,3 +38,51 @@ Proof. reflexivity. Qed.
 Theorem tail_ops_order A rgt prop sim pl :
   @tail_ops R (Some (A, rgt, prop, sim)) (Some pl) = [Transform A rgt (rgt && prop) sim; Project pl].
 Proof. reflexivity. Qed.
+
+
+(* what the inverted matrix is: the similarity with transposed rotation, reciprocal scale and back-mapped translation *)
+Theorem invert_loaded_form (cbrt : R -> R) (r : M3R) (t : V3R) (s : R) :
+  (forall x, cbrt x * cbrt x * cbrt x = x) -> SO3 r -> 0 < s ->
+  invert_loaded cbrt (sim3 r t s) = sim3 (mt r) (vopp (mv (mt r) (vscale (1 / s) t))) (1 / s).
+Proof.
+  intros Hc Hr Hs. unfold invert_loaded.
+  assert (E : cbrt (det (prot (sim3 r t s))) = s) by (apply (sim3_scale_recovered r t s _ Hr); apply Hc).
+  rewrite E. apply sim3_inverse_is_sim3. lra.
+Qed.
+(* inverting twice gives the loaded matrix back *)
+Theorem invert_loaded_involutive (cbrt : R -> R) (r : M3R) (t : V3R) (s : R) :
+  (forall x, cbrt x * cbrt x * cbrt x = x) -> SO3 r -> 0 < s ->
+  invert_loaded cbrt (invert_loaded cbrt (sim3 r t s)) = sim3 r t s.
+Proof.
+  intros Hc Hr Hs. rewrite (invert_loaded_form cbrt r t s Hc Hr Hs).
+  assert (Hs' : 0 < 1 / s) by (apply Rdiv_lt_0_compat; lra).
+  rewrite (invert_loaded_form cbrt (mt r) _ (1 / s) Hc (SO3_mt r Hr) Hs').
+  destruct Hr as [[_ O] _]. rewrite mt_mt.
+  replace (1 / (1 / s)) with s by (field; lra). f_equal.
+  rewrite vscale_vopp, mv_vopp, mv_vscale, <- mv_mm, O, mv_I, vscale_vscale.
+  replace (s * (1 / s)) with 1 by (field; lra). rewrite vscale_1. destruct t; v3eq.
+Qed.
+(* applying the loaded matrix and then its inversion (or the other way round) on the same side restores every pose *)
+Theorem invert_loaded_undoes (cbrt : R -> R) (r : M3R) (t : V3R) (s : R) (P : list PoseR) :
+  (forall x, cbrt x * cbrt x * cbrt x = x) -> SO3 r -> 0 < s ->
+  let A := sim3 r t s in let Ai := invert_loaded cbrt A in
+  transform_poses Ai false false (transform_poses A false false P) = P /\
+  transform_poses A false false (transform_poses Ai false false P) = P /\
+  transform_poses Ai true false (transform_poses A true false P) = P /\
+  transform_poses A true false (transform_poses Ai true false P) = P.
+Proof.
+  intros Hc Hr Hs A Ai. destruct (invert_loaded_two_sided cbrt r t s Hc Hr Hs) as [L Rr]. fold A in L, Rr. fold Ai in L, Rr.
+  rewrite !effect_left, !effect_right, !map_map. repeat split.
+  - rewrite <- (map_id P) at 2. apply map_ext. intros p. now rewrite <- pmul_assoc, L, pmul_I_l.
+  - rewrite <- (map_id P) at 2. apply map_ext. intros p. now rewrite <- pmul_assoc, Rr, pmul_I_l.
+  - rewrite <- (map_id P) at 2. apply map_ext. intros p. now rewrite pmul_assoc, Rr, pmul_I_r.
+  - rewrite <- (map_id P) at 2. apply map_ext. intros p. now rewrite pmul_assoc, L, pmul_I_r.
+Qed.
+(* for a loaded SE(3) matrix (scale 1) the inversion is se3_inverse *)
+Theorem invert_loaded_se3 (cbrt : R -> R) (r : M3R) (t : V3R) :
+  (forall x, cbrt x * cbrt x * cbrt x = x) -> SO3 r -> invert_loaded cbrt (sim3 r t 1) = se3_inverse (mkPose r t).
+Proof.
+  intros Hc Hr. unfold invert_loaded.
+  assert (E : cbrt (det (prot (sim3 r t 1))) = 1) by (apply (sim3_scale_recovered r t 1 _ Hr); apply Hc).
+  rewrite E. apply sim3_inverse_unit_scale_is_se3_inverse.
+Qed.
